@@ -84,6 +84,9 @@ type Config struct {
 	// UDP
 	UDPLoss, UDPDup float64
 	UDPDelayMax     time.Duration
+	// UDPBurstP: probability that a datagram is delivered in the same instant as the previous
+	// one to the same destination that is still on its way (a batch in a queue on the path).
+	UDPBurstP float64
 	// Read chunking: probability that a Read returns less than what is available.
 	ShortReadP float64
 }
@@ -119,6 +122,7 @@ type Net struct {
 	rng       *simrt.Rand
 	listeners map[string]*TCPListener
 	udp       map[string]*UDPConn
+	udpLast   map[string]time.Duration
 	dns       map[string]DNSEntry
 	eph       map[string]int
 	conns     []*Pair
@@ -1153,6 +1157,17 @@ func (c *UDPConn) WriteTo(b []byte, addr net.Addr) (int, error) {
 	dup := n.rng.Chance(n.Cfg.UDPDup)
 	d1 := n.rng.Dur(n.Cfg.LatMin, n.Cfg.LatMax+n.Cfg.UDPDelayMax)
 	d2 := n.rng.Dur(n.Cfg.LatMin, n.Cfg.LatMax+n.Cfg.UDPDelayMax)
+	if n.Cfg.UDPBurstP > 0 {
+		if n.udpLast == nil {
+			n.udpLast = map[string]time.Duration{}
+		}
+		k := c.key + ">" + to.String()
+		if last := n.udpLast[k]; n.rng.Chance(n.Cfg.UDPBurstP) && last > simrt.Now() {
+			d1 = last - simrt.Now()
+			simrt.Count("fault.udp.burst", 1)
+		}
+		n.udpLast[k] = simrt.Now() + d1
+	}
 	n.mu.Unlock()
 	simrt.Logf("net udp %s -> %s len=%d", c.key, to, len(b))
 	if n.OnUDP != nil && !n.OnUDP(c.addr, to, data) {
